@@ -292,6 +292,7 @@ class Lockstep:
                     if ro.kind == "ret":
                         ls.ob(lname + "/step/return", hyps, values_equal(ro.value, so.value), info)
                         continue
+                    # kinds "next" and "brk": the carried values must agree (same kind was checked above)
                     matched = set()
                     for ks in written_s:
                         kr = kmap[ks]
